@@ -1304,6 +1304,7 @@ class PrecisionManager:
         self.precfun = precfun
         self.dpsfun = dpsfun
         self.normalize_output = normalize_output
+        self.origp_stack = []
     def __call__(self, f):
         @functools.wraps(f)
         def g(*args, **kwargs):
@@ -1324,13 +1325,13 @@ class PrecisionManager:
                 self.ctx.prec = orig
         return g
     def __enter__(self):
-        self.origp = self.ctx.prec
+        self.origp_stack.append(self.ctx.prec)
         if self.precfun:
             self.ctx.prec = self.precfun(self.ctx.prec)
         else:
             self.ctx.dps = self.dpsfun(self.ctx.dps)
     def __exit__(self, exc_type, exc_val, exc_tb):
-        self.ctx.prec = self.origp
+        self.ctx.prec = self.origp_stack.pop()
         return False
 
 
